@@ -125,10 +125,11 @@ structure HSt where
   hops : Nat := 0
   deriving DecidableEq, Repr
 
-def receivedLo : Bytes := str "received"
-def receivedUp : Bytes := str "RECEIVED"
-def deliveredLo : Bytes := str "delivered"
-def deliveredUp : Bytes := str "DELIVERED"
+-- explicit byte lists (not `str "…"`): `String.toUTF8` does not reduce in proofs
+def receivedLo : Bytes := [114, 101, 99, 101, 105, 118, 101, 100]          -- "received"
+def receivedUp : Bytes := [82, 69, 67, 69, 73, 86, 69, 68]                 -- "RECEIVED"
+def deliveredLo : Bytes := [100, 101, 108, 105, 118, 101, 114, 101, 100]   -- "delivered"
+def deliveredUp : Bytes := [68, 69, 76, 73, 86, 69, 82, 69, 68]            -- "DELIVERED"
 
 def hstep (h : HSt) (ch : Byte) : HSt :=
   if !h.inHeader then h else
